@@ -10,6 +10,7 @@ open Emboss.Pipeline
 #print axioms C16_import_queue_terminates
 #print axioms C16_import_queue_result
 #print axioms C16_locations_in_file
+#print axioms C16_module_ir_locations
 #print axioms C16_caret_in_line
 #print axioms C16_caret_in_line_inline
 #print axioms C16_find_and_read_total
